@@ -19,7 +19,7 @@ package pki
 //vx:redirect (*golang.org/x/net/idna.Profile).ToASCII vxToASCII
 //vx:noop golang.org/x/net/idna.StrictDomainName
 //vx:noop golang.org/x/net/idna.VerifyDNSLength
-//vx:param namelen quick=4 thorough=6
+//vx:param namelen quick=4 thorough=5
 //vx:param cnlen quick=4 thorough=5
 //vx:param twolabel quick=0 thorough=1
 //vx:unwind 64
